@@ -743,7 +743,7 @@ Section TableStepSafe.
       pose proof (Resolved_found t req oi H Hres) as Hf.
       destruct oi as [i|]; cbn [bumped Handed]; [|exact I].
       destruct Hf as (_ & _ & e & He & _ & HP). rewrite He. cbn [option_map].
-      exists e. split; [exact He|]. split; [exact HP|]. split; [reflexivity|].
+      exists e. split; [reflexivity|]. split; [exact HP|]. split; [reflexivity|].
       rewrite (Hsub i (or_introl eq_refl)), He. reflexivity. }
     split; [exact H3|]. destruct (Forall3_length _ _ _ _ H3) as (L1 & L2).
     split; [congruence|]. repeat (split; [assumption|]). reflexivity.
